@@ -200,7 +200,7 @@ def run(rep, tier, root=None):
         rep.functions_analysed.add(f.fq)
         I = Interp(ix, int_transparent=False)
         args = I.symbolic_args(f, flags, fixed={"min_threshold": zero})
-        ps_ = I.paths(f, args)
+        ps_ = I.paths(f, args, split="deep")       # decisions made inside helpers are decisions of the centroider's paths
         forms[f.name] = (f, [(c_, v_) for c_, n_, v_ in ps_], I)
         for c_, n_, v_ in ps_:
             CNF[(f.name, c_)] = n_
